@@ -4,7 +4,16 @@
 use derivative::Derivative;
 use serde::{Deserialize, Serialize};
 
-use crate::utility::U256Wrapper;
+use crate::{
+    constant::{
+        ADDRESS_WIDTH_BITS,
+        BOOL_WIDTH_BITS,
+        BYTE_SIZE_BITS,
+        FUNCTION_WIDTH_BITS,
+        SELECTOR_WIDTH_BITS,
+    },
+    utility::U256Wrapper,
+};
 
 /// Concretely known Solidity ABI types and additional informative types.
 ///
@@ -120,6 +129,21 @@ pub enum AbiType {
 }
 
 impl AbiType {
+    /// Gets the width of the type in bits, if it is known.
+    #[must_use]
+    pub fn bit_width(&self) -> Option<usize> {
+        match self {
+            Self::Number { size } | Self::UInt { size } | Self::Int { size } => *size,
+            Self::Bits { length } => *length,
+            Self::Bytes { length } => length.map(|l| l.saturating_mul(BYTE_SIZE_BITS)),
+            Self::Address => Some(ADDRESS_WIDTH_BITS),
+            Self::Selector => Some(SELECTOR_WIDTH_BITS),
+            Self::Function => Some(FUNCTION_WIDTH_BITS),
+            Self::Bool => Some(BOOL_WIDTH_BITS),
+            _ => None,
+        }
+    }
+
     /// Creates an empty conflict.
     ///
     /// This is useful for testing purposes, as conflicted types compare equal
